@@ -18,7 +18,8 @@ GH = ("generators::BulletproofGensShare::<'a, G>::G", "generators::BulletproofGe
 def cap_guards(flat, fn_suffix):
     out = []
     for idx, (it, ctx) in enumerate(flat):
-        if it[0] == "guard" and it[4].endswith(fn_suffix) and isinstance(it[1], Cond) and (sp.sympify(it[1].a if it[1].a is not None else 0).has(cap) or sp.sympify(it[1].b if it[1].b is not None else 0).has(cap)):
+        # any function of the run's dynamic extent: the comparison may live in a `check_gens_capacity(..)?` helper
+        if it[0] == "guard" and isinstance(it[1], Cond) and (sp.sympify(it[1].a if it[1].a is not None else 0).has(cap) or sp.sympify(it[1].b if it[1].b is not None else 0).has(cap)):
             out.append((idx, it))
     return out
 
